@@ -313,11 +313,14 @@ TITLES = [None, "Title", "A *styled* title", "T2 `code`", "É title"]
 
 @st.composite
 def adm_case(draw):
-    classes = draw(st.sampled_from(["admonition", "admonition note", "admonition warning extra", "extra admonition"]))
+    # class tokens are separated by any HTML white space (a wrapped start tag puts a line break between them)
+    classes = draw(st.sampled_from(["admonition", "admonition note", "admonition warning extra", "extra admonition",
+                                    "admonition\ttip", "admonition  note", "admonition\n   tip", " admonition note ",
+                                    "extra\tadmonition"]))
     name = draw(st.sampled_from([None, None, "nm1", "My Name", "#x y"]))
     title = draw(st.sampled_from(TITLES))
     title_tag = draw(st.sampled_from(["p", "div"]))
-    title_class = draw(st.sampled_from(["title", "admonition-title", "x title"]))
+    title_class = draw(st.sampled_from(["title", "admonition-title", "x title", "title\tbig", "big\n title"]))
     body = []
     for _ in range(draw(st.integers(1, 3))):
         body.append([draw(st.sampled_from(["p", "text"])), draw(st.sampled_from(MD_TEXT))])
